@@ -45,6 +45,9 @@ def run(ctx):
         if unicodedata.category(chr(cp)) in ("Cn", "Cc", "Cf", "Zs", "Zl", "Zp", "Co", "Cs", "Mn", "Me", "Mc"):
             continue
         cases.append((rng.choice(variants), chr(cp), "outside"))
+    for v in variants:
+        for c in "Ϝϝ":
+            cases.append((v, c, "digamma"))       # Unicode has a mathematical digamma in bold only
     for v in [None, "normal", "Bold", "bold ", "tailed", "initial", "looped", "stretched", "", "BOLD"]:
         cases.append((v, "aB3αϝ", "unmapped-variant"))
     if ctx.tier == "thorough":
@@ -77,6 +80,12 @@ def run(ctx):
             for c, r in zip(text, got):
                 oracle_reqs.append({"op": "c18_result_ok", "variant": v, "c": ord(c), "r": ord(r)})
                 oracle_idx.append((v, c, r))
+        elif got is not None and kind == "digamma":
+            import unicodedata
+            want = {"Ϝ": "MATHEMATICAL BOLD CAPITAL DIGAMMA", "ϝ": "MATHEMATICAL BOLD SMALL DIGAMMA"}[text]
+            # (bold-script and bold-fraktur Greek use the bold letters: the statement's "nearest documented style")
+            if not (got == text or (v in ("bold", "bold-script", "bold-fraktur") and len(got) == 1 and unicodedata.name(got, "") == want)):
+                oracle_fail.append({"variant": v, "c": text, "got": got, "why": "digamma: Unicode has no such letter in this style (only MATHEMATICAL BOLD ... DIGAMMA exist), it must stay unchanged"})
         elif got is not None and kind in ("outside", "unmapped-variant"):
             # outside the key set / unmapped variants: the text must come back unchanged (digamma under bold-Greek variants excepted, judged by the model agreement above)
             if kind == "unmapped-variant" and got != text:
